@@ -33,4 +33,25 @@ def cases(ctx):
 
 
 PARTS = [Part("engine", prop, strategy=cases, quick=6400, thorough=160000, shrink_budget=40)]
+# --- several real schedulers on one token directory --------------------------------------------
+
+
+def prop_real(ctx, sc):
+    from vlib import real
+
+    res, labels, done_ok, begins, run = real.run_scenario(ctx, sc, ID)
+    try:
+        ctx.record(bool(sc["total"]) and len(sc["procs"]) >= 2, ["real"] + labels, sample={"scenario": sc, "log": res["log"], "status": res["status"], "time": res["time"]})
+    finally:
+        run.cleanup()
+
+
+def real_cases(ctx):
+    from vlib import real
+
+    return real.scenarios(max_procs=3, min_procs=2, max_jobs=5, token_pct=100, fail_pct=10)
+
+
+PARTS.append(Part("real", prop_real, strategy=real_cases, quick=16, thorough=240, shrink_budget=5))
+MIN_CLASSES["quick"]["real"] = 12
 TIMEOUT = {"quick": 900, "thorough": 5400}
